@@ -2,8 +2,13 @@
 use crate::common::*;
 use crate::gen::*;
 use crate::strict;
-use lopdf::{Document, IncrementalDocument, Object};
+use lopdf::encryption::crypt_filters::{Aes128CryptFilter, Aes256CryptFilter, CryptFilter, Rc4CryptFilter};
+use lopdf::xref::XrefType;
+use lopdf::{Dictionary, Document, EncryptionState, EncryptionVersion, IncrementalDocument, Object, Permissions, Stream};
+use rayon::prelude::*;
 use serde_json::{json, Value};
+use std::collections::BTreeMap;
+use std::sync::Arc;
 
 pub fn check_doc(spec: &DocSpec) -> Result<bool, (String, String)> {
     let mut d = build(spec);
@@ -82,7 +87,12 @@ pub fn check_incremental(spec: &DocSpec, base_spec: &DocSpec, strip_newline: boo
 }
 
 pub fn strict(thorough: bool) -> Report {
-    let mut rep = Report::new("all documents of gen::docs (alphabet of 27 leaves + containers, 5 id layouts, both xref formats), each saved to a Vec and to a sink that takes at most 7 bytes per call; incremental: each over 2 bases x newline/no-newline", true);
+    let mut rep = Report::new(&format!("all documents of gen::docs (alphabet of 27 leaves + containers, 5 id layouts, both xref formats), each saved to a Vec and to a sink that takes at most 7 bytes per call; incremental: each over 2 bases x newline/no-newline; \
+document histories: the saved document is the one in memory after EVERY sequence of at most {} ({} for the gen::docs bases) library operations that the library accepts, over the alphabet {{reload (save_to + load_mem), compress, decompress, Stream::set_content and Stream::set_plain_content on every stream, \
+encrypt with V1 RC4-40 / V2 RC4-128 / V4 RC4 / V4 AESV2 / R5 AESV3 / V5(R6) AESV3 x user password \"user\" or empty (owner \"owner\"), decrypt with \"user\" / \"owner\" / empty}}, applied to {} base documents \
+(both xref formats x plain stream bodies of 0, 1, 15, 16, 17, 32, 255, 256 bytes next to strings, a compressible 400-byte stream, a Metadata stream and a FlateDecode stream, one base without trailer ID; plus {}); \
+after every history (every prefix included) the document is saved plainly and as the update of an incremental save and the strict reader must recover the objects held in memory at that moment",
+        hist_depth(thorough, true), hist_depth(thorough, false), history_bases(thorough).len(), if thorough { "every gen::docs document of the quick family" } else { "the gen::docs documents whose first object is a stream" }), true);
     let specs = docs(thorough);
     for s in &specs {
         match check_doc(s) {
@@ -103,6 +113,7 @@ pub fn strict(thorough: bool) -> Report {
             }
         }
     }
+    histories(&mut rep, thorough, &bases);
     rep
 }
 
@@ -160,10 +171,349 @@ pub fn spec_from_json(v: &Value) -> DocSpec {
 
 pub fn replay(v: &Value) -> Result<(), String> {
     let s = spec_from_json(&v["spec"]);
+    if v["kind"] == "history" {
+        return replay_history(v);
+    }
     if v["kind"] == "incremental" {
         let b = spec_from_json(&v["base"]);
         check_incremental(&s, &b, v["strip_newline"].as_bool().unwrap_or(true)).map(|_| ()).map_err(|e| format!("{}: {}", e.0, e.1))
     } else {
         check_doc(&s).map(|_| ()).map_err(|e| format!("{}: {}", e.0, e.1))
     }
+}
+
+// ---------------------------------------------------------------------------------------------------------------------
+// Document histories.
+//
+// The property quantifies over every in-memory document, and what `save` writes for a stream is the dictionary and the
+// body exactly as they are held in memory.  A document does not only come into memory by being put together object by
+// object: it is loaded from a file, compressed, decompressed, encrypted, decrypted, has its stream bodies replaced.  So the
+// family has a second axis, the HISTORY of the document: every sequence (up to a length bound) of library operations the
+// library accepts, each applied to the result of the one before.  After every history - every prefix is a history - the
+// document is saved (plainly, and as the update of an incremental save) and the strict reader must accept the file and
+// give back the objects that were in memory when `save` was called.  The oracle is the same as for built documents:
+// nothing about what an operation is supposed to do is assumed here (that is C05 / C09), only that whatever document it
+// leaves behind is saved as a valid file holding that document.
+// ---------------------------------------------------------------------------------------------------------------------
+
+#[derive(Clone, Copy, Debug, PartialEq)]
+pub enum Cipher { V1Rc4, V2Rc4, V4Rc4, V4AesV2, R5AesV3, V5AesV3 }
+
+#[derive(Clone, Copy, Debug, PartialEq)]
+pub enum Pw { User, Owner, Empty }
+
+#[derive(Clone, Copy, Debug, PartialEq)]
+pub enum Op { Reload, Compress, Decompress, SetContent, SetPlain, Encrypt(Cipher, bool), Decrypt(Pw) }
+
+impl Cipher {
+    fn all() -> [Cipher; 6] { [Cipher::V1Rc4, Cipher::V2Rc4, Cipher::V4Rc4, Cipher::V4AesV2, Cipher::R5AesV3, Cipher::V5AesV3] }
+    fn name(self) -> &'static str {
+        match self { Cipher::V1Rc4 => "V1-RC4-40", Cipher::V2Rc4 => "V2-RC4-128", Cipher::V4Rc4 => "V4-RC4", Cipher::V4AesV2 => "V4-AESV2", Cipher::R5AesV3 => "R5-AESV3", Cipher::V5AesV3 => "V5-AESV3" }
+    }
+}
+
+impl Pw {
+    fn text(self) -> &'static str { match self { Pw::User => "user", Pw::Owner => "owner", Pw::Empty => "" } }
+}
+
+impl Op {
+    pub fn alphabet() -> Vec<Op> {
+        let mut v = vec![Op::Reload, Op::Compress, Op::Decompress, Op::SetContent, Op::SetPlain];
+        for c in Cipher::all() { for empty_user in [false, true] { v.push(Op::Encrypt(c, empty_user)); } }
+        v.extend([Op::Decrypt(Pw::User), Op::Decrypt(Pw::Owner), Op::Decrypt(Pw::Empty)]);
+        v
+    }
+    pub fn name(self) -> String {
+        match self {
+            Op::Reload => "reload".into(),
+            Op::Compress => "compress".into(),
+            Op::Decompress => "decompress".into(),
+            Op::SetContent => "set_content".into(),
+            Op::SetPlain => "set_plain_content".into(),
+            Op::Encrypt(c, empty_user) => format!("encrypt({}, user password {})", c.name(), if empty_user { "empty" } else { "\"user\"" }),
+            Op::Decrypt(p) => format!("decrypt(\"{}\")", p.text()),
+        }
+    }
+    pub fn from_name(n: &str) -> Option<Op> { Op::alphabet().into_iter().find(|o| o.name() == n) }
+}
+
+fn ops_text(h: &[Op]) -> String { h.iter().map(|o| o.name()).collect::<Vec<_>>().join(", ") }
+
+#[allow(deprecated)]
+fn new_state(c: Cipher, doc: &Document, user: &str) -> Result<EncryptionState, lopdf::Error> {
+    const KEY: [u8; 32] = [0x5a, 1, 2, 3, 4, 5, 6, 7, 8, 9, 10, 11, 12, 13, 14, 15, 0xf0, 0xf1, 0xf2, 0xf3, 0xf4, 0xf5, 0xf6, 0xf7, 0xf8, 0xf9, 0xfa, 0xfb, 0xfc, 0xfd, 0xfe, 0xff];
+    let cf = |f: Arc<dyn CryptFilter>| -> BTreeMap<Vec<u8>, Arc<dyn CryptFilter>> { BTreeMap::from([(b"StdCF".to_vec(), f)]) };
+    let (owner_password, user_password, permissions) = ("owner", user, Permissions::all());
+    let std = b"StdCF".to_vec();
+    let v = match c {
+        Cipher::V1Rc4 => EncryptionVersion::V1 { document: doc, owner_password, user_password, permissions },
+        Cipher::V2Rc4 => EncryptionVersion::V2 { document: doc, owner_password, user_password, key_length: 128, permissions },
+        Cipher::V4Rc4 => EncryptionVersion::V4 { document: doc, encrypt_metadata: true, crypt_filters: cf(Arc::new(Rc4CryptFilter)), stream_filter: std.clone(), string_filter: std, owner_password, user_password, permissions },
+        Cipher::V4AesV2 => EncryptionVersion::V4 { document: doc, encrypt_metadata: true, crypt_filters: cf(Arc::new(Aes128CryptFilter)), stream_filter: std.clone(), string_filter: std, owner_password, user_password, permissions },
+        Cipher::R5AesV3 => EncryptionVersion::R5 { encrypt_metadata: true, crypt_filters: cf(Arc::new(Aes256CryptFilter)), file_encryption_key: &KEY, stream_filter: std.clone(), string_filter: std, owner_password, user_password, permissions },
+        Cipher::V5AesV3 => EncryptionVersion::V5 { encrypt_metadata: true, crypt_filters: cf(Arc::new(Aes256CryptFilter)), file_encryption_key: &KEY, stream_filter: std.clone(), string_filter: std, owner_password, user_password, permissions },
+    };
+    EncryptionState::try_from(v)
+}
+
+/// R5 and V5 states depend only on the given file key and the passwords, not on the document: made once per (cipher, user
+/// password) and cloned (deriving one runs Algorithm 2.B three times)
+fn make_state(c: Cipher, doc: &Document, user: &str) -> Result<EncryptionState, lopdf::Error> {
+    static CACHE: std::sync::Mutex<Vec<(Cipher, bool, EncryptionState)>> = std::sync::Mutex::new(Vec::new());
+    if !matches!(c, Cipher::R5AesV3 | Cipher::V5AesV3) { return new_state(c, doc, user); }
+    let mut g = CACHE.lock().unwrap_or_else(|e| e.into_inner());
+    if let Some(e) = g.iter().find(|e| e.0 == c && e.1 == user.is_empty()) { return Ok(e.2.clone()); }
+    let st = new_state(c, doc, user)?;
+    g.push((c, user.is_empty(), st.clone()));
+    Ok(st)
+}
+
+/// catch a panic without touching the panic hook (cases run on rayon threads; `histories` silences the hook once)
+fn quiet<T>(f: impl FnOnce() -> T) -> Result<T, String> {
+    std::panic::catch_unwind(std::panic::AssertUnwindSafe(f)).map_err(|e| {
+        if let Some(s) = e.downcast_ref::<String>() { s.clone() } else if let Some(s) = e.downcast_ref::<&str>() { s.to_string() } else { "panic".to_string() }
+    })
+}
+
+pub enum Step { Done(Document), Refused, Panicked(String) }
+
+/// one library operation on a copy of `doc`; `Refused`: the library returned an error (the sequence is not a history)
+pub fn apply(op: Op, doc: &Document) -> Step {
+    let mut d = doc.clone();
+    let r = quiet(move || -> Result<Document, String> {
+        let each_stream = |d: &mut Document, f: &dyn Fn(&mut Stream)| -> Result<(), String> {
+            let mut n = 0;
+            for (_, o) in d.objects.iter_mut() {
+                if is_bookkeeping_object(o) { continue; }
+                if let Object::Stream(s) = o { f(s); n += 1; }
+            }
+            if n == 0 { Err("no stream to edit".into()) } else { Ok(()) }
+        };
+        match op {
+            Op::Reload => {
+                let mut out = vec![];
+                d.save_to(&mut out).map_err(|e| e.to_string())?;
+                Document::load_mem(&out).map_err(|e| e.to_string())
+            }
+            Op::Compress => { d.compress(); Ok(d) }
+            Op::Decompress => { d.decompress(); Ok(d) }
+            Op::SetContent => { each_stream(&mut d, &|s| { let mut c = s.content.clone(); c.extend_from_slice(b" %+edit\n"); s.set_content(c); })?; Ok(d) }
+            Op::SetPlain => { each_stream(&mut d, &|s| s.set_plain_content(b"q 1 0 0 1 0 0 cm Q".to_vec()))?; Ok(d) }
+            Op::Encrypt(c, empty_user) => {
+                let st = make_state(c, &d, if empty_user { "" } else { "user" }).map_err(|e| e.to_string())?;
+                d.encrypt(&st).map_err(|e| e.to_string())?;
+                Ok(d)
+            }
+            Op::Decrypt(p) => { d.decrypt(p.text()).map_err(|e| e.to_string())?; Ok(d) }
+        }
+    });
+    match r { Ok(Ok(d)) => Step::Done(d), Ok(Err(_)) => Step::Refused, Err(p) => Step::Panicked(p) }
+}
+
+/// diagnosis only (not part of the verdict): streams whose dictionary and body already disagree in memory
+fn length_note(doc: &Document) -> String {
+    let mut first = String::new();
+    let mut more = 0;
+    for (id, o) in &doc.objects {
+        if let Object::Stream(s) = o {
+            if is_bookkeeping_object(o) { continue; }
+            let l = s.dict.get(b"Length").and_then(|o| o.as_i64()).ok();
+            if l != Some(s.content.len() as i64) {
+                if first.is_empty() { first = format!("stream {} {} holds {} body bytes while its dictionary says Length {}", id.0, id.1, s.content.len(), l.map(|v| v.to_string()).unwrap_or("(absent or indirect)".into())); } else { more += 1; }
+            }
+        }
+    }
+    if first.is_empty() { String::new() } else { format!(" [in memory when save was called, {}{}]", first, if more > 0 { format!("; likewise {} more streams", more) } else { String::new() }) }
+}
+
+pub struct HistBase { pub bytes: Vec<u8>, pub prev: Document, pub spec: DocSpec }
+
+/// the two saves of the document as it is now; Err((obligation, detail))
+pub fn check_state(doc: &Document, inc: Option<&HistBase>) -> Result<(), (String, String)> {
+    let expect = doc.clone();
+    let want_stream = matches!(doc.reference_table.cross_reference_type, XrefType::CrossReferenceStream);
+    match inc {
+        None => {
+            let mut d = doc.clone();
+            let mut out = vec![];
+            match quiet(|| d.save_to(&mut out)) {
+                Err(p) => return Err(("save-no-panic-after-history".into(), format!("save panicked: {}", p))),
+                Ok(Err(e)) => return Err(("save-ok-after-history".into(), format!("save to a Vec failed: {}", e))),
+                Ok(Ok(())) => {}
+            }
+            verify_file(&out, 0, &expect, want_stream).map_err(|e| ("strict-reader-after-history".to_string(), format!("{}{}", e, length_note(&expect))))
+        }
+        Some(b) => {
+            let mut incd = IncrementalDocument::create_from(b.bytes.clone(), b.prev.clone());
+            for (id, o) in &doc.objects {
+                incd.new_document.objects.insert(*id, o.clone());
+                incd.new_document.max_id = incd.new_document.max_id.max(id.0);
+            }
+            let expect_doc = incd.new_document.clone();
+            let mut out = vec![];
+            match quiet(|| incd.save_to(&mut out)) {
+                Err(p) => return Err(("save-no-panic-after-history".into(), format!("incremental save panicked: {}", p))),
+                Ok(Err(e)) => return Err(("save-ok-after-history".into(), format!("incremental save to a Vec failed: {}", e))),
+                Ok(Ok(())) => {}
+            }
+            if !out.starts_with(&b.bytes) { return Err(("incremental-prefix".into(), "previous bytes are not an unchanged prefix".into())); }
+            let mut start = b.bytes.len();
+            if out.get(start) == Some(&b'\n') && !b.bytes.ends_with(b"\n") { start += 1; }
+            verify_file(&out, start, &expect_doc, b.spec.xref_stream).map_err(|e| ("strict-reader-incremental-after-history".to_string(), format!("{}{}", e, length_note(&expect_doc))))
+        }
+    }
+}
+
+fn pat(n: usize, seed: u8) -> Vec<u8> { (0..n).map(|i| (i as u8).wrapping_mul(37).wrapping_add(seed)).collect() }
+
+/// a base document for histories: strings (direct and nested), a plain stream of `n` bytes, a compressible stream, a
+/// Metadata stream and a stream that is already FlateDecode-compressed; `with_id`: the trailer has an ID (gen::build's extra_trailer)
+pub fn history_doc(n: usize, xref_stream: bool, with_id: bool) -> DocSpec {
+    use flate2::write::ZlibEncoder;
+    use std::io::Write;
+    let mut enc = ZlibEncoder::new(Vec::new(), flate2::Compression::default());
+    enc.write_all(&b"BT /F1 12 Tf (flate) Tj ET\n".repeat(8)).unwrap();
+    let deflated = enc.finish().unwrap();
+    let objects = vec![
+        ((1, 0), Object::Dictionary(dict(vec![(b"Type", name(b"Catalog")), (b"Title", lit(b"history (of) a document\\")), (b"Metadata", Object::Reference((5, 0)))]))),
+        ((2, 0), Object::Stream(Stream::new(dict(vec![(b"Note", lit(b"plain body"))]), pat(n, 11)))),
+        ((3, 0), Object::Dictionary(dict(vec![(b"Producer", lit(b"p\\(")), (b"Nested", Object::Array(vec![hexs(b"\x00\xff"), Object::Dictionary(dict(vec![(b"K", lit(b""))]))]))]))),
+        ((4, 1), Object::Stream(Stream::new(Dictionary::new(), b"0 0 m 10 10 l S\n".repeat(25)))),
+        ((5, 0), Object::Stream(Stream::new(dict(vec![(b"Type", name(b"Metadata")), (b"Subtype", name(b"XML"))]), b"<x:xmpmeta xmlns:x=\"adobe:ns:meta/\"></x:xmpmeta>".to_vec()))),
+        ((7, 0), Object::Stream(Stream::new(dict(vec![(b"Filter", name(b"FlateDecode"))]), deflated))),
+    ];
+    DocSpec { objects, xref_stream, version: "1.7".into(), extra_trailer: with_id, max_id_slack: (n % 2) as u32 }
+}
+
+pub const HISTORY_BODY_LENGTHS: [usize; 8] = [0, 1, 15, 16, 17, 32, 255, 256];
+
+/// (base document, is it one of the purpose-built history bases)
+pub fn history_bases(thorough: bool) -> Vec<(DocSpec, bool)> {
+    let mut v = vec![];
+    for xs in [false, true] {
+        for n in HISTORY_BODY_LENGTHS { v.push((history_doc(n, xs, true), true)); }
+        v.push((history_doc(33, xs, false), true));
+    }
+    for s in docs(false) {
+        let first_is_stream = matches!(s.objects.first(), Some((_, Object::Stream(_))));
+        if thorough || first_is_stream { v.push((s, false)); }
+    }
+    v
+}
+
+pub fn hist_depth(thorough: bool, purpose_built: bool) -> usize { if thorough && purpose_built { 4 } else { 3 } }
+
+struct HFail { ops: Vec<Op>, base: usize, incremental: bool, obligation: String, detail: String }
+
+#[derive(Default)]
+struct HOut { by_len: [u64; 8], refused: u64, fails: Vec<HFail> }
+
+fn explore(doc: &Document, hist: &mut Vec<Op>, left: usize, base: usize, incs: &[HistBase; 2], out: &mut HOut) {
+    out.by_len[hist.len()] += 1;
+    let inc = &incs[if matches!(doc.reference_table.cross_reference_type, XrefType::CrossReferenceStream) { 1 } else { 0 }];
+    let mut failed = false;
+    for (incremental, r) in [(false, check_state(doc, None)), (true, check_state(doc, Some(inc)))] {
+        if let Err((obligation, detail)) = r { failed = true; out.fails.push(HFail { ops: hist.clone(), base, incremental, obligation, detail }); }
+    }
+    // a longer history through a state that already fails adds nothing (and is not minimal)
+    if failed || left == 0 { return; }
+    for op in Op::alphabet() {
+        match apply(op, doc) {
+            Step::Done(nd) => { hist.push(op); explore(&nd, hist, left - 1, base, incs, out); hist.pop(); }
+            Step::Refused => out.refused += 1,
+            Step::Panicked(p) => {
+                let mut h = hist.clone();
+                h.push(op);
+                out.fails.push(HFail { ops: h, base, incremental: false, obligation: "history-no-panic".into(), detail: format!("the last operation of the history panicked: {}", p) });
+            }
+        }
+    }
+}
+
+fn hist_base_of(spec: &DocSpec) -> Result<HistBase, String> {
+    let mut bytes = vec![];
+    build(spec).save_to(&mut bytes).map_err(|e| e.to_string())?;
+    bytes.push(b'\n');
+    let prev = Document::load_mem(&bytes).map_err(|e| e.to_string())?;
+    Ok(HistBase { bytes, prev, spec: spec.clone() })
+}
+
+fn history_input(spec: &DocSpec, ops: &[Op], incremental: bool, inc_base: &DocSpec) -> Value {
+    let mut v = json!({"kind": "history", "spec": spec_json(spec), "ops": ops.iter().map(|o| o.name()).collect::<Vec<_>>(), "save": if incremental { "incremental" } else { "plain" }});
+    if incremental { v["base"] = spec_json(inc_base); }
+    v
+}
+
+fn histories(rep: &mut Report, thorough: bool, bases: &[DocSpec]) {
+    let table = bases.iter().find(|b| !b.xref_stream);
+    let stream = bases.iter().find(|b| b.xref_stream);
+    let incs = match (table.map(hist_base_of), stream.map(hist_base_of)) {
+        (Some(Ok(a)), Some(Ok(b))) => [a, b],
+        _ => { rep.case(true); rep.fail("base-save", "the bases of the incremental saves could not be saved and loaded".into(), json!({"kind": "history-bases"}), "no bases".into()); return; }
+    };
+    let hb = history_bases(thorough);
+    let prev_hook = std::panic::take_hook();
+    std::panic::set_hook(Box::new(|_| {}));
+    // one task per (base, first operation) plus one per base for the empty history, so that the deep bases spread over all cores
+    let mut tasks: Vec<(usize, Option<Op>)> = vec![];
+    for i in 0..hb.len() { tasks.push((i, None)); for op in Op::alphabet() { tasks.push((i, Some(op))); } }
+    let outs: Vec<HOut> = tasks.par_iter().map(|(i, first)| {
+        let (spec, purpose_built) = &hb[*i];
+        let depth = hist_depth(thorough, *purpose_built);
+        let mut out = HOut::default();
+        let root = build(spec);
+        match first {
+            None => explore(&root, &mut vec![], 0, *i, &incs, &mut out),
+            Some(op) => match apply(*op, &root) {
+                Step::Done(nd) => explore(&nd, &mut vec![*op], depth - 1, *i, &incs, &mut out),
+                Step::Refused => out.refused += 1,
+                Step::Panicked(p) => out.fails.push(HFail { ops: vec![*op], base: *i, incremental: false, obligation: "history-no-panic".into(), detail: format!("the last operation of the history panicked: {}", p) }),
+            },
+        }
+        out
+    }).collect();
+    std::panic::set_hook(prev_hook);
+    let mut by_len = [0u64; 8];
+    let mut refused = 0;
+    let mut fails: Vec<HFail> = vec![];
+    for o in outs {
+        for k in 0..8 { by_len[k] += o.by_len[k]; }
+        refused += o.refused;
+        fails.extend(o.fails);
+    }
+    // two saves per history; the empty history of a base repeats a built document and is not counted as a new non-trivial case
+    for (k, n) in by_len.iter().enumerate() { for _ in 0..2 * n { rep.case(k > 0); } }
+    rep.samples.truncate(3);
+    rep.sample(format!("histories saved and read strictly, by number of operations 0..: {:?}; operation attempts the library refused (not histories): {}", &by_len[..5], refused));
+    // shortest histories first, so that the failures kept are the minimal ones
+    fails.sort_by_key(|f| (f.ops.len(), f.incremental, f.base));
+    for f in fails.iter().take(2000) {
+        let spec = &hb[f.base].0;
+        let inc_spec = &incs[if spec.xref_stream { 1 } else { 0 }].spec;
+        // the "[..] " prefix is not part of the failure signature (Report::fail), so one cause reached by many histories is kept three times, shortest histories first
+        let detail = format!("[history: {}] {} -- {} save of the document {}", ops_text(&f.ops), f.detail, if f.incremental { "incremental" } else { "plain" }, describe_short(spec));
+        rep.fail(&f.obligation, detail.clone(), history_input(spec, &f.ops, f.incremental, inc_spec), detail);
+    }
+}
+
+fn describe_short(s: &DocSpec) -> String { let mut t = describe(s); if t.len() > 240 { let mut k = 240; while !t.is_char_boundary(k) { k -= 1; } t.truncate(k); t.push_str("..."); } t }
+
+fn replay_history(v: &Value) -> Result<(), String> {
+    let spec = spec_from_json(&v["spec"]);
+    let mut doc = build(&spec);
+    let mut done = vec![];
+    for n in v["ops"].as_array().cloned().unwrap_or_default() {
+        let op = Op::from_name(n.as_str().unwrap_or("")).ok_or(format!("unknown operation {:?}", n))?;
+        done.push(op);
+        match apply(op, &doc) {
+            Step::Done(d) => doc = d,
+            Step::Refused => return Ok(()),   // the library no longer accepts this sequence: the recorded failure is gone
+            Step::Panicked(p) => return Err(format!("history-no-panic: [{}]: {}", ops_text(&done), p)),
+        }
+    }
+    let r = if v["save"] == "incremental" {
+        let b = hist_base_of(&spec_from_json(&v["base"])).map_err(|e| format!("base-save: {}", e))?;
+        check_state(&doc, Some(&b))
+    } else { check_state(&doc, None) };
+    r.map_err(|e| format!("{}: {} -- after the history [{}]", e.0, e.1, ops_text(&done)))
 }
